@@ -6,7 +6,7 @@ PROP = "C02"
 
 def run(tier):
     return AC.run(PROP, tier,
-                  "same families as C01, k-mer prefilter replaced by the always-true finder (C07 judges the prefilter); per "
+                  "same families as C01, match_to as users get it (with the adapter's own k-mer prefilter); per "
                   "(configuration, read) the C reference enumerates ALL admissible occurrences (one full DP per admissible start) and "
                   "judges: exact occurrence => match; any admissible occurrence => match (indels off, or type cannot skip the adapter "
                   "start); leftmost/rightmost exact-copy cut rules; exact anchored removal; non-trivial = admissible set non-empty",
